@@ -42,26 +42,52 @@ var maxHash = ucon.VerifC04MaxHash()
 
 // Rec is one replayable input (also the JSON stored in corpus / oracle hits).
 type Rec struct {
-	Kind      string `json:"kind"` // search choose makem prio sort verify verifyprio
-	What      string `json:"what,omitempty"`
-	N         int64  `json:"n,omitempty"`
-	Tbl       []bool `json:"tbl,omitempty"`
-	Hash      string `json:"hash,omitempty"` // hex, 32 bytes
-	W         int64  `json:"w,omitempty"`
-	A         string `json:"a,omitempty"` // p = A/B
-	B         string `json:"b,omitempty"`
-	Seed      string `json:"seed,omitempty"`
-	Role      uint32 `json:"role,omitempty"`
-	Index     uint32 `json:"index,omitempty"`
-	J         int64  `json:"j,omitempty"`
-	Key       string `json:"key,omitempty"` // hex private key
-	Threshold uint64 `json:"threshold,omitempty"`
-	Stake     int64  `json:"stake,omitempty"`
-	Total     string `json:"total,omitempty"`
-	Perturb   string `json:"perturb,omitempty"`
-	PArg      int64  `json:"parg,omitempty"`
-	Got       string `json:"got,omitempty"`
-	Comment   string `json:"comment,omitempty"`
+	Kind      string   `json:"kind"` // search choose makem prio sort verify verifyprio
+	What      string   `json:"what,omitempty"`
+	N         int64    `json:"n,omitempty"`
+	Tbl       []bool   `json:"tbl,omitempty"`
+	Hash      string   `json:"hash,omitempty"` // hex, 32 bytes
+	W         int64    `json:"w,omitempty"`
+	A         string   `json:"a,omitempty"` // p = A/B
+	B         string   `json:"b,omitempty"`
+	Seed      string   `json:"seed,omitempty"`
+	Role      uint32   `json:"role,omitempty"`
+	Index     uint32   `json:"index,omitempty"`
+	J         int64    `json:"j,omitempty"`
+	Key       string   `json:"key,omitempty"` // hex private key
+	Threshold uint64   `json:"threshold,omitempty"`
+	Stake     int64    `json:"stake,omitempty"`
+	Total     string   `json:"total,omitempty"`
+	Perturb   string   `json:"perturb,omitempty"`
+	PArg      int64    `json:"parg,omitempty"`
+	Env       []MgrEnv `json:"env,omitempty"`
+	Ops       []MgrOp  `json:"ops,omitempty"`
+	Got       string   `json:"got,omitempty"`
+	Comment   string   `json:"comment,omitempty"`
+}
+
+// MgrEnv is what the stub look-back providers return for one round.
+type MgrEnv struct {
+	Round    uint64 `json:"round"`
+	Stake    int64  `json:"stake"`
+	Total    int64  `json:"total"`
+	PTh      uint64 `json:"pth"`
+	VTh      uint64 `json:"vth"`
+	CTh      uint64 `json:"cth"`
+	Kind     uint8  `json:"kind"`
+	Status   uint8  `json:"status"`
+	ErrStake bool   `json:"errstake,omitempty"`
+	SeedPos  string `json:"seedpos"`
+	SeedCert string `json:"seedcert"`
+	ErrSeed  bool   `json:"errseed,omitempty"`
+}
+
+// MgrOp is one call on the sortition manager: clear, proposer, validator, get.
+type MgrOp struct {
+	Op    string `json:"op"`
+	Round uint64 `json:"round"`
+	Index uint32 `json:"index,omitempty"`
+	Step  uint32 `json:"step,omitempty"`
 }
 
 func bf(x *big.Int) *big.Float      { return new(big.Float).SetPrec(prec).SetInt(x) }
@@ -522,8 +548,240 @@ func run(rec *Rec, toCoq bool) outcome {
 		o.coq = fmt.Sprintf("CPrio %s %s %s %s", zb(hInt(h)), zi(rec.J), tblCoq(ktblFor(h, rec.J+2)), zb(hInt(got)))
 	case "sort", "verify", "verifyprio":
 		o = runProtocol(rec, toCoq)
+	case "mgr":
+		o = runManager(rec, toCoq)
 	}
 	return o
+}
+
+// runManager drives the prover-side SortitionManager through a history of
+// clears and queries with stub look-back providers.  Oracle: every view it
+// returns for (round, index, step) verifies against the seed, stake and
+// threshold of the round ASKED for.
+func runManager(rec *Rec, toCoq bool) outcome {
+	var o outcome
+	o.class = "manager_history"
+	sk, pk := keyOf(rec.Key)
+	if sk == nil {
+		o.class = "bad_key"
+		return o
+	}
+	env := map[uint64]MgrEnv{}
+	for _, e := range rec.Env {
+		env[e.Round] = e
+	}
+	stakeFn := func(round *big.Int, addr common.Address, isProposer bool, lb params.LookBackType) (*big.Int, *big.Int, uint64, params.ValidatorKind, uint8, error) {
+		e, ok := env[round.Uint64()]
+		if !ok || e.ErrStake {
+			return big.NewInt(0), big.NewInt(0), 0, params.KindValidator, params.ValidatorOffline, fmt.Errorf("no stake info")
+		}
+		th := e.VTh
+		if isProposer {
+			th = e.PTh
+		} else if lb == params.LookBackCert {
+			th = e.CTh
+		}
+		return big.NewInt(e.Stake), big.NewInt(e.Total), th, params.ValidatorKind(e.Kind), e.Status, nil
+	}
+	seedFn := func(round *big.Int, lb params.LookBackType) (common.Hash, error) {
+		e, ok := env[round.Uint64()]
+		if !ok || e.ErrSeed {
+			return common.Hash{}, fmt.Errorf("no seed")
+		}
+		if lb == params.LookBackCert {
+			return hashHex(e.SeedCert), nil
+		}
+		return hashHex(e.SeedPos), nil
+	}
+	lbOf := func(step uint32) params.LookBackType {
+		if step == 5 { // Certificate
+			return params.LookBackCert
+		}
+		return params.LookBackPos
+	}
+	sm := ucon.NewSortitionManager(sk, stakeFn, seedFn, common.Address{1})
+	vt := [][2]interface{}{}
+	seen := map[string]bool{}
+	addMsg := func(m []byte) {
+		if seen[string(m)] {
+			return
+		}
+		seen[string(m)] = true
+		v, _ := sk.Evaluate(m)
+		vt = append(vt, [2]interface{}{append([]byte{}, m...), new(big.Int).SetBytes(v[:])})
+	}
+	var opsCoq, obsCoq, gotTxt []string
+	for n, op := range rec.Ops {
+		round := new(big.Int).SetUint64(op.Round)
+		var flag bool
+		var view *ucon.StepView
+		step := op.Step
+		isProp := false
+		switch op.Op {
+		case "clear":
+			sm.ClearStepView(round)
+			opsCoq = append(opsCoq, fmt.Sprintf("OClear %d", op.Round))
+		case "proposer":
+			step, isProp = ucon.UConStepProposal, true
+			flag, view = sm.VerifC04IsProposer(round, op.Index)
+			opsCoq = append(opsCoq, fmt.Sprintf("OProposer %d %d", op.Round, op.Index))
+		case "validator":
+			flag, view = sm.VerifC04IsValidator(round, op.Index, op.Step, lbOf(op.Step))
+			opsCoq = append(opsCoq, fmt.Sprintf("OValidator %d %d %d", op.Round, op.Index, op.Step))
+		case "get":
+			view = sm.GetStepView(round, op.Index, op.Step)
+			isProp = step == ucon.UConStepProposal
+			opsCoq = append(opsCoq, fmt.Sprintf("OGet %d %d %d", op.Round, op.Index, op.Step))
+		}
+		// the message of the round asked for
+		var asked []byte
+		lb := lbOf(step)
+		if isProp {
+			lb = params.LookBackPos
+		}
+		if op.Op != "clear" {
+			if sd, err := seedFn(round, lb); err == nil {
+				asked = ucon.MakeM(sd, step, op.Index)
+				if op.Op != "get" {
+					addMsg(asked)
+					if isProp {
+						cm := append(append(append([]byte{}, sd[:]...), round.Bytes()...), byte(op.Index>>24), byte(op.Index>>16), byte(op.Index>>8), byte(op.Index))
+						addMsg(cm)
+					}
+				}
+			}
+		}
+		fl, hv, sub, thr, kind, pth := int64(0), int64(0), int64(0), int64(0), int64(0), int64(-3)
+		seedv := new(big.Int)
+		pthS := "(-3)"
+		if flag {
+			fl = 1
+		}
+		if view != nil {
+			hv, sub, thr, kind = 1, int64(view.SubUsers), int64(view.Threshold), int64(view.ValidatorType)
+			seedv = hInt(view.SeedValue)
+			pth = -2
+			pthS = "(-2)"
+			if len(view.SortitionProof) > 0 {
+				pth = -1
+				pthS = "(-1)"
+				where := fmt.Sprintf("op %d: %s(round %d, index %d, step %d)", n, op.Op, op.Round, op.Index, step)
+				if asked != nil {
+					if h, err := pk.ProofToHash(asked, view.SortitionProof); err == nil {
+						pth = 0
+						pthS = zb(new(big.Int).SetBytes(h[:]))
+					}
+				}
+				if pth == -1 && o.what == "" {
+					o.what = "sortition manager returned a credential that does not verify against the seed of the round asked for; " + where
+				}
+				if stake, total, th, _, _, err := stakeFn(round, common.Address{}, isProp, lb); err == nil && asked != nil && o.what == "" {
+					sd, _ := seedFn(round, lb)
+					code := callVerify(pk, sd, op.Index, step, view.SortitionProof, view.SubUsers, th, stake, total)
+					if (view.SubUsers > 0) != (code == 0) || (view.SubUsers == 0 && code != 3) {
+						o.what = fmt.Sprintf("sortition manager returned a credential (seats %d) that VrfVerifySortition does not accept for the round asked for (verdict %d); %s", view.SubUsers, code, where)
+					}
+					if isProp && o.what == "" {
+						if pc := callVerifyPrio(pk, sd, op.Index, step, view.SortitionProof, view.Priority, view.SubUsers, th, stake, total); pc != 0 {
+							o.what = fmt.Sprintf("sortition manager returned a proposer priority that VrfVerifyPriority does not accept for the round asked for (verdict %d); %s", pc, where)
+						}
+						if view.SubUsers > 0 {
+							if want, _ := ucon.ComputeSeed(sk, round, op.Index, sd); want != view.SeedValue {
+								o.what = "sortition manager returned a proposer view whose next seed is not ComputeSeed of the round asked for; " + where
+							}
+						}
+					}
+				}
+			}
+		}
+		_ = pth
+		obsCoq = append(obsCoq, fmt.Sprintf("mkObs %d %d %d %d %d %s %s", fl, hv, sub, thr, kind, zb(seedv), pthS))
+		gotTxt = append(gotTxt, fmt.Sprintf("%d/%d/%d/%s", fl, hv, sub, pthS))
+	}
+	o.got = strings.Join(gotTxt, " ")
+	if toCoq {
+		var es []string
+		for _, e := range rec.Env {
+			es = append(es, fmt.Sprintf("(%d, mkEnv %d %d %d %d %d %d %d %s %s %s %s)", e.Round, e.Stake, e.Total, e.PTh, e.VTh, e.CTh, e.Kind, e.Status,
+				vf.Bool(e.ErrStake), zb(hInt(hashHex(e.SeedPos))), zb(hInt(hashHex(e.SeedCert))), vf.Bool(e.ErrSeed)))
+		}
+		o.coq = fmt.Sprintf("CMgr %s %s %s %s", vf.List(es), tblCoq(vt), vf.List(opsCoq), vf.List(obsCoq))
+	}
+	return o
+}
+
+func genManager(r *vf.Rng) *Rec {
+	rec := &Rec{Kind: "mgr", Key: fmt.Sprintf("%064x", 1+r.Intn(6))}
+	base := uint64(1 + r.Intn(1000))
+	if r.Chance(10) {
+		base = r.U64() >> uint(1+r.Intn(40))
+	}
+	nr := 2 + r.Intn(2)
+	for k := 0; k < nr; k++ {
+		tot := int64(8 + r.Intn(50))
+		e := MgrEnv{Round: base + uint64(k), Stake: int64(1 + r.Intn(12)), Total: tot, Kind: 1, Status: 1,
+			PTh: uint64(1 + r.Intn(int(tot))), VTh: uint64(1 + r.Intn(int(tot))), CTh: uint64(1 + r.Intn(int(tot))),
+			SeedPos: hex32(new(big.Int).SetBytes(r.Bytes(32))), SeedCert: hex32(new(big.Int).SetBytes(r.Bytes(32)))}
+		if r.Chance(60) { // seats likely
+			e.PTh, e.VTh, e.CTh = uint64(tot*2/3+1), uint64(tot*3/4+1), uint64(tot/2+1)
+		}
+		switch r.Intn(25) {
+		case 0:
+			e.Kind = 2
+		case 1:
+			e.Status = 0
+		case 2:
+			e.ErrStake = true
+		case 3:
+			e.ErrSeed = true
+		case 4:
+			e.Total = 0
+		}
+		rec.Env = append(rec.Env, e)
+	}
+	steps := []uint32{2, 3, 4, 5}
+	q := func(round uint64, idx, step uint32) MgrOp {
+		if step == 1 {
+			return MgrOp{Op: "proposer", Round: round, Index: idx}
+		}
+		return MgrOp{Op: "validator", Round: round, Index: idx, Step: step}
+	}
+	rndRound := func() uint64 { return base + uint64(r.Intn(nr)) }
+	rndStep := func() uint32 {
+		if r.Chance(35) {
+			return 1
+		}
+		return steps[r.Intn(len(steps))]
+	}
+	if r.Chance(55) {
+		// straggler: the manager is cleared for round R+1, is then asked about
+		// the older round R, and afterwards about R+1 with the same index and step
+		R := base + uint64(r.Intn(nr-1))
+		idx, st := uint32(r.Intn(3)), rndStep()
+		if r.Chance(60) {
+			rec.Ops = append(rec.Ops, MgrOp{Op: "clear", Round: R}, q(R, idx, st))
+		}
+		rec.Ops = append(rec.Ops, MgrOp{Op: "clear", Round: R + 1})
+		for k := r.Intn(3); k > 0; k-- {
+			rec.Ops = append(rec.Ops, q(rndRound(), uint32(r.Intn(3)), rndStep()))
+		}
+		rec.Ops = append(rec.Ops, q(R, idx, st))
+		for k := r.Intn(3); k > 0; k-- {
+			rec.Ops = append(rec.Ops, q(rndRound(), uint32(r.Intn(3)), rndStep()))
+		}
+		rec.Ops = append(rec.Ops, q(R+1, idx, st), MgrOp{Op: "get", Round: R + 1, Index: idx, Step: st}, q(R, idx, st))
+	}
+	for k := 2 + r.Intn(8); k > 0; k-- {
+		switch r.Intn(10) {
+		case 0, 1:
+			rec.Ops = append(rec.Ops, MgrOp{Op: "clear", Round: rndRound()})
+		case 2:
+			rec.Ops = append(rec.Ops, MgrOp{Op: "get", Round: rndRound(), Index: uint32(r.Intn(3)), Step: rndStep()})
+		default:
+			rec.Ops = append(rec.Ops, q(rndRound(), uint32(r.Intn(3)), rndStep()))
+		}
+	}
+	return rec
 }
 
 // perturbations of a credential (single field each)
@@ -1018,14 +1276,16 @@ func genRec(r *vf.Rng) *Rec {
 		a, b := genP(r, small, w)
 		hb, cls := genHash(r, w, a, b)
 		return &Rec{Kind: "choose", Hash: hex32(hb), W: w, A: a.String(), B: b.String(), Comment: cls}
-	case k < 54:
+	case k < 53:
 		vals := []uint32{0, 1, 2, 3, 4, 255, 256, 65535, 65536, 1 << 24, 0xffffffff, 0xfffffffe, uint32(r.U64())}
 		seed := new(big.Int).SetBytes(r.Bytes(32))
 		if r.Chance(15) {
 			seed = new(big.Int).Rsh(seed, uint(r.Intn(256)))
 		}
 		return &Rec{Kind: "makem", Seed: hex32(seed), Role: vals[r.Intn(len(vals))], Index: vals[r.Intn(len(vals))]}
-	case k < 62:
+	case k < 61:
+		return genManager(r)
+	case k < 66:
 		j := int64(r.Heavy(64))
 		if r.Chance(10) {
 			j = []int64{0, 1, 255, 256, 257}[r.Intn(5)]
@@ -1034,7 +1294,7 @@ func genRec(r *vf.Rng) *Rec {
 	default:
 		rec := &Rec{}
 		switch {
-		case k < 72:
+		case k < 74:
 			rec.Kind = "sort"
 		case k < 88:
 			rec.Kind = "verify"
